@@ -553,7 +553,7 @@ func c16Shutdown(c *Ctx) {
 		return ok
 	}}
 	// on every path (error or not)
-	paths, _ := enumPaths(fn.Blocks[0].Instrs[0], steps[0], nil, nil, 100)
+	paths, _ := enumPathsAt(fn.Blocks[0], 0, steps[0], nil, nil, 100)
 	bad := ""
 	for _, pa := range paths {
 		if pa.endWhy == "return" && len(pa.seen) == 0 {
